@@ -23,6 +23,7 @@ def run(ctx, sess):
     ctx.rule('C01.j', '"however the writes were split into calls" includes empty ones: with data_length == 0 the block writer jls_wr_fsr_data reaches no store into the writer state (first sample id, block header, counters) - an empty first call must not decide where the signal starts')
     ctx.rule('C01.k', '"however the writes were split into calls", sub-byte types: when a block is flushed, the bits kept in its last, partial byte are the block\'s own remainder (entry_count x width mod 8), computed from the block header - not the running shift state of the packer, which belongs to the call in progress')
     ctx.rule('C01.l', '"for any signal definition the writer accepts": the alignment keeps the divisibility it established between the block size, the decimation factors and the entries per summary (shared with C16.7) - a definition whose entries per summary is not a multiple of the summary decimation makes upper index levels unreadable')
+    ctx.rule('C01.n', '"however the writes were split into calls", sub-byte types: the byte that carries the pending bits to the next call also holds bits of the caller\'s buffer behind the last sample - wherever it is merged into stored data it is masked to the pending bit count, or every store into it is masked')
     ctx.rule('C01.m', '"however the writes were split into calls", sub-byte types: traced for widths 1 and 4, partly filled blocks and call sizes that stay in the block, fill it exactly or cross into the next ones, the bit packer reads every byte of the caller\'s data exactly once')
     ctx.rule('C01.b', 'grow-to-fit: buffer growth strictly increasing and overflow-free; the grow request covers the on-disk payload size for every residue')
     f = P.fn('jls_core_rd_fsr_level1')
@@ -94,6 +95,7 @@ def run(ctx, sess):
     empty_call_rule(ctx, P, 'C01.j')
     block_tail_rule(ctx, P, 'C01.k')
     packer_reads_rule(ctx, P, 'C01.m')
+    pending_bits_rule(ctx, P, 'C01.n')
     from .common import relay as _relay
     from . import c16 as _src_c16
     _relay(ctx, sess, _src_c16.run, {'C16.7': 'C01.l'}, minimum=1)
@@ -317,3 +319,58 @@ def packer_reads_rule(ctx, P, rule):
            '%d (width, block fill, call size) combinations traced: every byte of the block the caller provides is read exactly once' % n if not bad else
            '; '.join(bad[:2]) + ' (%d of %d combinations): the packer falls out of step with the data of the caller for the rest of the call' % (len(bad), n))
     ctx.floor('bit packer traces', n, 100)
+
+
+def pending_bits_rule(ctx, P, rule):
+    from ..ir import strip_casts, show, walk
+    n = 0
+    for fn in P.fns_in('src/wr_fsr.c'):
+        def is_pb(e):
+            e = strip_casts(e)
+            return e.get('op') == 'member' and e.get('field') == 'shift_buffer'
+
+        def masked(e):
+            e0 = e
+            while e0.get('op') in ('cast', 'paren'):
+                e0 = e0['k'][0]
+            return e0.get('op') == 'bin' and e0['o'] == '&'
+        uses = []
+        for b in fn.blocks.values():
+            for ev in b.events:
+                e = getattr(ev, 'e', None)
+                if e is None:
+                    continue
+                rhs = ev.store_parts()[1] if ev.k in ('store', 'decl') else e
+                for nd in walk(rhs or {}):
+                    # merged into a wider value:  x | pending   /  pending | x ; or stored as a data byte
+                    if nd.get('op') == 'bin' and nd['o'] == '|':
+                        for k_ in nd['k']:
+                            if is_pb(k_):
+                                uses.append((ev, False))
+                            else:
+                                k0 = k_
+                                while k0.get('op') in ('cast', 'paren'):
+                                    k0 = k0['k'][0]
+                                if k0.get('op') == 'bin' and k0['o'] == '&' and any(is_pb(x) for x in k0['k']):
+                                    uses.append((ev, True))
+                if ev.k == 'store' and rhs is not None and strip_casts(ev.store_parts()[0]).get('op') in ('sub', 'un'):
+                    r0 = rhs
+                    while r0.get('op') in ('cast', 'paren'):
+                        r0 = r0['k'][0]
+                    if is_pb(r0):
+                        uses.append((ev, False))
+                    elif r0.get('op') == 'bin' and r0['o'] == '&' and any(is_pb(x) for x in r0['k']):
+                        uses.append((ev, True))
+        if not uses:
+            continue
+        stores = [ev for ev in fn.stores() if ev.k == 'store' and is_pb(ev.store_parts()[0]) and ev.store_parts()[1] is not None]
+        clean_stores = bool(stores) and all(masked(ev.store_parts()[1]) or const_of(strip_casts(ev.store_parts()[1])) == 0 for ev in stores)
+        for ev, m in uses:
+            n += 1
+            ctx.saw(fn, 1)
+            ok = m or clean_stores
+            dirty = [s_ for s_ in stores if not (masked(s_.store_parts()[1]) or const_of(strip_casts(s_.store_parts()[1])) == 0)]
+            ctx.ob(rule, ok, fn.name, 'pending bits merged at line %d are clean' % ev.ln, ev.where(),
+                   'masked where they are merged' if m else ('every store into the pending byte is masked' if clean_stores else
+                   'the pending byte is merged unmasked, and the store %s keeps whatever followed the last sample in the caller\'s byte: when a call ends inside a byte, the bits behind its last sample become samples of the next call' % (show(dirty[0].e)[:60] if dirty else '?')))
+    ctx.floor('merges of the pending byte', n, 2)
